@@ -84,11 +84,20 @@ def _tag(rng, tags):
   return f"<{t}{attrs}>"
 
 
+# SGML / XML constructs that an HTML-style tag parser treats specially: declarations, marked sections (known and unknown
+# keywords, unterminated), processing instructions, comments, character references with odd terminators
+_MARKUP_DECLS = ["<![CDATA[ x ]]>", "<![foo[ x ]]>", "<![ [x]]>", "<![if gte mso 9]>x<![endif]>", "<![", "<![foo", "<![1[", "<![-[>", "<![temp[",
+                 "<!DOCTYPE html>", "<!DOCTYPE x [ <!ENTITY a 'b'> ]>", "<!ELEMENT", "<!x", "<!>", "<!", "<!-- c -->", "<!-- unterminated", "<!--->", "<?pi?>", "<?pi",
+                 "<? ?>", "&#;", "&#x;", "&#99999999999;", "&#xD800;", "&#0;", "&amp", "&;", "</>", "<>", "< b>", "<b/>", "<b / >", "</b x=1>", "<a:b>", "<b\n>"]
+
+
 def _payload(rng, tags):
   out = []
   for _ in range(rng.choice([0, 1, 2, 3, 5, 8])):
     r = rng.random()
-    if r < 0.5:
+    if r < 0.08:
+      out.append(rng.choice(_MARKUP_DECLS))
+    elif r < 0.5:
       out.append(_tag(rng, tags))
     elif r < 0.9:
       out.append(rng.choice(_WORDS))
